@@ -36,7 +36,7 @@ def run(tier):
     stats = {'G_instances': 0, 'G_calls': 0, 'G_exact_match_id_variant': 0, 'G_exact_match_addr_variant': 0, 'G_tie_calls': 0,
              'G_unresolved_oracle': 0, 'impl_entail_checked': 0, 'impl_topo_checked': 0, 'model_entail_checked': 0,
              'M_compared': 0, 'R_oracle_runs': 0, 'R_model_compared': 0, 'R_fixed_checked': 0, 'constraints_total': 0,
-             'R_third': 0, 'R_model_skipped_not_generic': 0, 'R_huge': 0, 'R_with_fixed': 0, 'R_moved_something': 0}
+             'R_third': 0, 'R_model_skipped_not_generic': 0, 'R_fixed_displaced': 0, 'R_fixed_displaced_fixed_overlap': 0, 'R_fixed_displaced_cluster': 0, 'R_huge': 0, 'R_with_fixed': 0, 'R_moved_something': 0}
     corr_fail = []      # model != implementation (no property failure shown yet)
     samples = []
 
@@ -44,7 +44,7 @@ def run(tier):
     insts = []
     cp = os.path.join(C.VERIF, 'corpus')
     for fn in sorted(os.listdir(cp)) if os.path.isdir(cp) else []:
-        if fn.startswith('c09_') or fn.startswith('c20_fd'):
+        if (fn.startswith('c09_') and fn != 'c09_fixed_displaced.json') or fn.startswith('c20_fd'):
             try:
                 d = json.load(open(os.path.join(cp, fn)))
                 insts.append(L.Inst(d['scale'], d['rects_minX_maxX_minY_maxY_over_scale'],
@@ -182,16 +182,20 @@ def run(tier):
 
     # ---------------------------------------------------------------- V + C: removeoverlaps
     ro = []
+    cf = os.path.join(C.VERIF, 'corpus', 'c09_fixed_displaced.json')
+    if os.path.exists(cf):
+        for d in json.load(open(cf))['cases']:
+            ro.append((L.Inst(d['scale'], d['rects_minX_maxX_minY_maxY_over_scale'], int(d['xBorder'].split('/')[0]),
+                              int(d['yBorder'].split('/')[0]), 'corpus:c09_fixed_displaced'), d['fixed'], d['thirdPass']))
+    n_corpus_ro = len(ro)
     for t in range(N_RO + N_RO_BIG):
         big = t >= N_RO
         inst = L.gen_instance(rng, big=big)
         n = inst.n()
         fixed = []
         if rng.chance(1, 2):
-            if n <= 8:
-                fixed = [rng.below(n)]
-            else:
-                fixed = sorted(set(rng.below(n) for _ in range(rng.range(1, 2))))
+            k = rng.choice([1, 1, 1, 2, 2, 3, rng.range(1, n)])
+            fixed = sorted(set(rng.below(n) for _ in range(k)))
         third = rng.chance(1, 2)
         ro.append((inst, fixed, third))
     for t in range(6 if thorough else 2):
@@ -213,8 +217,8 @@ def run(tier):
     model_keys = []
     for t, ((inst, fixed, third), line) in enumerate(zip(ro, rout)):
         r = L.parse_impl_R(line)
-        check_fixed = inst.n() <= 8 and len(fixed) <= 1
-        fails = L.oracle_R(inst, fixed, r, check_fixed)
+        fails = L.oracle_R(inst, fixed, r, True)
+        check_fixed = True
         stats['R_oracle_runs'] += 1
         stats['R_third'] += third
         stats['R_with_fixed'] += bool(fixed)
@@ -223,12 +227,24 @@ def run(tier):
         if r['exc'] == 0 and any(abs(r['rects'][i][0] - F(inst.rects[i][0], s)) > F(1, 1000) or abs(r['rects'][i][2] - F(inst.rects[i][2], s)) > F(1, 1000)
                                  for i in range(inst.n())):
             stats['R_moved_something'] += 1
-        if fails:
-            res.violation({'what': 'removeoverlaps output violates C09', 'failures': fails[:5], 'input': inst.to_json(), 'fixed': fixed,
+        hard = [f for f in fails if f.get('kind') != 'fixed_moved' or not f['classifier']['explained']]
+        soft = [f for f in fails if f.get('kind') == 'fixed_moved' and f['classifier']['explained']]
+        replay_cmd = 'echo "%s" | build/bin/c09_rect-exc-*' % L.cmd_R_impl(inst, fixed, third)
+        if hard:
+            res.violation({'what': 'removeoverlaps output violates C09', 'failures': hard[:5], 'input': inst.to_json(), 'fixed': fixed,
                            'thirdPass': third, 'output_minX_maxX_minY_maxY': [[float(v) for v in q] for q in r['rects']],
-                           'replay': 'echo "%s" | build/bin/c09_rect-exc-*' % L.cmd_R_impl(inst, fixed, third)})
+                           'replay': replay_cmd})
             if len(res.violations) > 5:
                 break
+        if soft:
+            stats['R_fixed_displaced'] += 1
+            fam = 'fixed_overlap' if any(f['classifier']['family'] == 'fixed_overlap' for f in soft) else 'cluster'
+            stats['R_fixed_displaced_' + fam] += 1
+            res.violation({'what': 'removeoverlaps moved a rectangle named as fixed by 1% of the mean size or more; the displacement is exactly '
+                                   'balanced by the weighted displacements of the other rectangles (fixed = weight 10000, not a pin)',
+                           'failures': soft[:5], 'input': inst.to_json(), 'fixed': fixed, 'thirdPass': third,
+                           'output_minX_maxX_minY_maxY': [[float(v) for v in q] for q in r['rects']], 'replay': replay_cmd},
+                          fingerprint='fixed_rect_displaced:' + fam)
         if inst.family == 'huge':
             stats['R_huge'] += 1
         elif not L.generic_position(inst):
@@ -305,8 +321,6 @@ META = {
                   'a parameter of the model (C01/C02 own it); in the correspondence it is the real vpsc::Solver. The exact-rational model cannot follow '
                   'branches decided by binary64 rounding of the non-dyadic 1e-3 padding, so removeoverlaps is compared with the model only on '
                   'generic-position inputs (1e-6); on all inputs the property\'s own oracle checks the real output (no overlap 1e-6, sizes 1e-9, borders '
-                  'restored, no exception). Fixed rectangles are weighted 10000:1, not pinned: the "<1% of mean size" clause is checked for one fixed '
-                  'rectangle among at most 8 (where the weighted mean bounds the movement); it is false for large clusters or mutually overlapping fixed '
-                  'rectangles and is not claimed there. Exception path (F-e: catch(char*) never matches) is not reachable on DAGs and not covered.',
+                  'restored, no exception). The clause `fixed rectangles move < 1% of the mean size` is asserted on every run for every generated fixed subset; it is FALSE for the code (fixed = weight 10000, not a pin) and reported as the known finding fixed_rect_displaced (sub-families cluster / fixed_overlap, corpus/c09_fixed_displaced.json) through a classifier evaluated on the failing case: 10000*|delta_f| <= sum of the other rectangles\' weighted displacements per axis (the weighted-mean balance of a VPSC block); an unbalanced displacement stays a VIOLATION. Exception path (F-e: catch(char*) never matches) is not reachable on DAGs and not covered.',
     'technique': 'Coq proof over a hand-written model + exact correspondence + verified certificate checkers on real outputs',
 }
